@@ -342,7 +342,7 @@ bool OPNMIDIplay::realTime_NoteOn(uint8_t channel, uint8_t note, uint8_t velocit
         }
     }
 
-    if(static_cast<size_t>(channel) > m_midiChannels.size())
+    if(static_cast<size_t>(channel) >= m_midiChannels.size())
         channel = channel % 16;
     noteOff(channel, note, velocity != 0);
     // On Note on, Keyoff the note first, just in case keyoff
@@ -643,14 +643,14 @@ bool OPNMIDIplay::realTime_NoteOn(uint8_t channel, uint8_t note, uint8_t velocit
 
 void OPNMIDIplay::realTime_NoteOff(uint8_t channel, uint8_t note)
 {
-    if(static_cast<size_t>(channel) > m_midiChannels.size())
+    if(static_cast<size_t>(channel) >= m_midiChannels.size())
         channel = channel % 16;
     noteOff(channel, note);
 }
 
 void OPNMIDIplay::realTime_NoteAfterTouch(uint8_t channel, uint8_t note, uint8_t atVal)
 {
-    if(static_cast<size_t>(channel) > m_midiChannels.size())
+    if(static_cast<size_t>(channel) >= m_midiChannels.size())
         channel = channel % 16;
     MIDIchannel &chan = m_midiChannels[channel];
     MIDIchannel::notes_iterator i = m_midiChannels[channel].find_activenote(note);
@@ -672,14 +672,14 @@ void OPNMIDIplay::realTime_NoteAfterTouch(uint8_t channel, uint8_t note, uint8_t
 
 void OPNMIDIplay::realTime_ChannelAfterTouch(uint8_t channel, uint8_t atVal)
 {
-    if(static_cast<size_t>(channel) > m_midiChannels.size())
+    if(static_cast<size_t>(channel) >= m_midiChannels.size())
         channel = channel % 16;
     m_midiChannels[channel].aftertouch = atVal;
 }
 
 void OPNMIDIplay::realTime_Controller(uint8_t channel, uint8_t type, uint8_t value)
 {
-    if(static_cast<size_t>(channel) > m_midiChannels.size())
+    if(static_cast<size_t>(channel) >= m_midiChannels.size())
         channel = channel % 16;
     switch(type)
     {
@@ -825,14 +825,14 @@ void OPNMIDIplay::realTime_Controller(uint8_t channel, uint8_t type, uint8_t val
 
 void OPNMIDIplay::realTime_PatchChange(uint8_t channel, uint8_t patch)
 {
-    if(static_cast<size_t>(channel) > m_midiChannels.size())
+    if(static_cast<size_t>(channel) >= m_midiChannels.size())
         channel = channel % 16;
     m_midiChannels[channel].patch = patch;
 }
 
 void OPNMIDIplay::realTime_PitchBend(uint8_t channel, uint16_t pitch)
 {
-    if(static_cast<size_t>(channel) > m_midiChannels.size())
+    if(static_cast<size_t>(channel) >= m_midiChannels.size())
         channel = channel % 16;
     m_midiChannels[channel].bend = int(pitch) - 8192;
     noteUpdateAll(channel, Upd_Pitch);
@@ -840,7 +840,7 @@ void OPNMIDIplay::realTime_PitchBend(uint8_t channel, uint16_t pitch)
 
 void OPNMIDIplay::realTime_PitchBend(uint8_t channel, uint8_t msb, uint8_t lsb)
 {
-    if(static_cast<size_t>(channel) > m_midiChannels.size())
+    if(static_cast<size_t>(channel) >= m_midiChannels.size())
         channel = channel % 16;
     m_midiChannels[channel].bend = int(lsb) + int(msb) * 128 - 8192;
     noteUpdateAll(channel, Upd_Pitch);
@@ -848,21 +848,21 @@ void OPNMIDIplay::realTime_PitchBend(uint8_t channel, uint8_t msb, uint8_t lsb)
 
 void OPNMIDIplay::realTime_BankChangeLSB(uint8_t channel, uint8_t lsb)
 {
-    if(static_cast<size_t>(channel) > m_midiChannels.size())
+    if(static_cast<size_t>(channel) >= m_midiChannels.size())
         channel = channel % 16;
     m_midiChannels[channel].bank_lsb = lsb;
 }
 
 void OPNMIDIplay::realTime_BankChangeMSB(uint8_t channel, uint8_t msb)
 {
-    if(static_cast<size_t>(channel) > m_midiChannels.size())
+    if(static_cast<size_t>(channel) >= m_midiChannels.size())
         channel = channel % 16;
     m_midiChannels[channel].bank_msb = msb;
 }
 
 void OPNMIDIplay::realTime_BankChange(uint8_t channel, uint16_t bank)
 {
-    if(static_cast<size_t>(channel) > m_midiChannels.size())
+    if(static_cast<size_t>(channel) >= m_midiChannels.size())
         channel = channel % 16;
     m_midiChannels[channel].bank_lsb = uint8_t(bank & 0xFF);
     m_midiChannels[channel].bank_msb = uint8_t((bank >> 8) & 0xFF);
